@@ -336,6 +336,45 @@ def shared_pixel_leaf(ctx, lentil):
             if dev > 1e-12 or tilts > 1e-12:
                 ctx.violation({'kind': 'fit-tilt-on-shared-segment-samples', 'inplace': inplace},
                               {'rings': rings, 'seg_radius': R, 'seg_gap': gap, 'samples_in_two_masks': shared, 'max_opd_change_m': dev, 'max_recorded_tilt': tilts}, case=None)
+    # the same apertures under ONE smooth global OPD (defocus): every segment gets a different tilt, and a sample that two masks
+    # contain can carry only one OPD value - the plane decides which segment owns it (Plane.mask says so), and for THAT division
+    # OPD-plus-recorded-tilt is the OPD that went in and the propagated field of the fitted plane is the field of the plane itself
+    for rings, R, gap in ((2, 12, 1), (1, 11, 0), (2, 9, 0.5)):
+        masks = lentil.hex_segments(rings=rings, seg_radius=R, seg_gap=gap)
+        shared = int(((np.asarray(masks) != 0).sum(axis=0) > 1).sum())
+        if shared == 0:
+            continue
+        shape = masks.shape[1:]
+        dx = 1.0 / shape[0]
+        r, c = lentil.helper.mesh(shape)
+        opd = 600e-9 * ((r * dx) ** 2 + (c * dx) ** 2) / 0.25
+        p = lentil.Pupil(amplitude=np.clip(masks.sum(axis=0), 0, 1), opd=opd.copy(), mask=masks, pixelscale=dx, focal_length=10.0)
+        pf = p.fit_tilt()
+        n += 1
+        ctx.case(('shared-pixels-defocus', rings, R, gap))
+        own = np.asarray(pf.mask) != 0
+        worst = 0.0
+        for k_ in range(own.shape[0]):
+            t = pf.tilt[k_]
+            rec = np.asarray(pf.opd) + (t.y * r * dx - t.x * c * dx)          # Tilt(x, y) stores the two angles swapped (see TILTS)
+            if own[k_].any():
+                worst = max(worst, float(np.abs(rec - opd)[own[k_]].max()))
+        kw = dict(pixelscale=5e-6, shape=64, oversample=2)
+        a = lentil.propagate_dft(lentil.Wavefront(650e-9) * p, **kw)
+        b = lentil.propagate_dft(lentil.Wavefront(650e-9) * pf, **kw)
+
+        def coverage(w):
+            cov = np.zeros(w.shape)
+            for f in w.data:
+                cov += lentil.field.insert(lentil.field.Field(np.ones(f.shape), offset=f.offset), np.zeros(w.shape, dtype=complex)).real
+            return cov
+        both = (coverage(a) == len(a.data)) & (coverage(b) == len(b.data))
+        err = float(np.abs(a.field - b.field)[both].max() / np.abs(a.field).max()) if both.any() else 0.0
+        once = int((own.sum(axis=0) > 1).sum())
+        if worst > 1e-12 or err > 1e-9 or once:
+            ctx.violation({'kind': 'fit-tilt-on-shared-segment-samples', 'opd': 'defocus'},
+                          {'rings': rings, 'seg_radius': R, 'seg_gap': gap, 'samples_in_two_masks': shared, 'samples_in_two_plane_masks': once,
+                           'max_opd_plus_tilt_change_m': worst, 'max_field_change_over_peak': err, 'samples_compared': int(both.sum())}, case=None)
     return n
 
 
